@@ -117,38 +117,40 @@ theorem sunk_sunk (t : TreeImg) (xs : List Nat) (q : Nat) (qs : List Nat) (pid :
     sunk (sunk t xs [q] pid) (insNat q xs) qs pid = sunk t xs (q :: qs) pid := by
   simp [sunk, sinkXs, List.append_assoc]
 
-variable {p0 : PImg} {live lo : Nat} {allowed covered : List Nat} {top : Bool}
+variable {p0 : PImg} {live lo : Nat} {allowed covered : List Nat} {lv : LiveP}
 
 /-- **sinking without split**: block judgement, resulting scratch tree -/
 theorem pblk_sink (cfg : Cfg) :
     ∀ (qs : List Nat) (nd : Nat) (ps : PS) (t : TreeImg) (xs : List Nat) (pid : Nat),
       SameKey p0.hdr ps.pm → min ps.bm ps.pm.nextPage = nd → Leaf1 t xs pid → xs.length + qs.length ≤ cfg.leafCap →
-      (t.key ≠ live ∨ (top = false ∧ SortedNat xs ∧ (∀ x ∈ xs, x ∈ allowed) ∧ (∀ x ∈ covered, x ∈ xs) ∧ ∀ q ∈ qs, q ∈ allowed)) →
-      PBlk p0 live allowed covered top lo nd ps (sinkA cfg ps t qs).1 (sinkEffs t.key pid xs qs) (nd + qs.length)
+      (t.key ≠ live ∨ (lv.Xi = [] ∧ SortedNat xs ∧ (∀ x ∈ xs, x ∈ allowed) ∧ (∀ x ∈ covered, x ∈ xs) ∧ ∀ q ∈ qs, q ∈ allowed)) →
+      PBlk p0 live allowed covered lv lo nd ps (sinkA cfg ps t qs).1 (sinkEffs t.key pid xs qs) (nd + qs.length)
         (sinkA cfg ps t qs).2.1 ∧
       (sinkA cfg ps t qs).2.2 = sunk t xs qs pid
   | [], nd, ps, t, xs, pid, hsk, hnp, hl, _, _ => by
-    refine ⟨by simpa [sinkA, sinkEffs] using PBlk.nil (live := live) (lo := lo) (allowed := allowed) (covered := covered) (top := top) hsk hnp, ?_⟩
+    refine ⟨by simpa [sinkA, sinkEffs] using PBlk.nil (live := live) (lo := lo) (allowed := allowed) (covered := covered) (lv := lv) hsk hnp, ?_⟩
     simp only [sinkA, sunk, sinkXs, List.reverse_nil, List.nil_append, ← hl.leaves]
   | q :: qs, nd, ps, t, xs, pid, hsk, hnp, hl, hcap, hsafe => by
     have hcap1 : xs.length < cfg.leafCap := by simp at hcap; omega
     have hone := sinkOneA_eq cfg ps t q xs pid hl hcap1
-    obtain ⟨ba, hpid, _⟩ := pblk_alloc_eq (p0 := p0) (live := live) (lo := lo) (allowed := allowed) (covered := covered) (top := top) ps hsk hnp
-    have bb := pblk_write (p0 := p0) (live := live) (lo := lo) (allowed := allowed) (covered := covered) (top := top) ba.sk ba.np
+    obtain ⟨ba, hpid, _⟩ := pblk_alloc_eq (p0 := p0) (live := live) (lo := lo) (allowed := allowed) (covered := covered) (lv := lv) ps hsk hnp
+    have bb := pblk_write (p0 := p0) (live := live) (lo := lo) (allowed := allowed) (covered := covered) (lv := lv) ba.sk ba.np
       (.blob t.key q) (allocA ps).2.2 trivial
-    have hleaf : CEff p0 live allowed covered top lo (nd + 1) (.leaf t.key 0 ((insNat q xs).map some) false pid) := by
+    have hleaf : CEff p0 live allowed covered lv lo (nd + 1) (.leaf t.key 0 ((insNat q xs).map some) false pid) := by
       rcases hsafe with h | ⟨h0, h1, h2, h3, h4⟩
       · exact Or.inl h
-      · refine Or.inr ⟨h0, rfl, rfl, insNat q xs, rfl, sortedNat_insNat q xs h1, ?_, ?_⟩
+      · refine Or.inr ⟨by rw [h0]; rfl, rfl, insNat q xs, rfl, by rw [h0]; simpa using sortedNat_insNat q xs h1,
+          fun hx => absurd h0 hx, ?_, ?_⟩
         · intro y hy
           rcases (mem_insNat q y xs).mp hy with rfl | hy
           · exact h4 _ (by simp)
           · exact h2 y hy
         · intro y hy
-          exact (mem_insNat q y xs).mpr (Or.inr (h3 y hy))
-    have bl := pblk_write (p0 := p0) (live := live) (lo := lo) (allowed := allowed) (covered := covered) (top := top) ba.sk ba.np
+          rw [h0]
+          simpa using (mem_insNat q y xs).mpr (Or.inr (h3 y hy))
+    have bl := pblk_write (p0 := p0) (live := live) (lo := lo) (allowed := allowed) (covered := covered) (lv := lv) ba.sk ba.np
       (.leaf t.key 0 ((insNat q xs).map some) false pid) pid hleaf
-    have hsafe' : (sunk t xs [q] pid).key ≠ live ∨ (top = false ∧ SortedNat (insNat q xs) ∧ (∀ x ∈ insNat q xs, x ∈ allowed) ∧
+    have hsafe' : (sunk t xs [q] pid).key ≠ live ∨ (lv.Xi = [] ∧ SortedNat (insNat q xs) ∧ (∀ x ∈ insNat q xs, x ∈ allowed) ∧
         (∀ x ∈ covered, x ∈ insNat q xs) ∧ ∀ q' ∈ qs, q' ∈ allowed) := by
       rcases hsafe with h | ⟨h0, h1, h2, h3, h4⟩
       · exact Or.inl h
